@@ -4,6 +4,7 @@ import Proofs.C17Pipe
 import Proofs.C17Deb
 import Proofs.C17Reg
 import Proofs.C06Lock
+import Proofs.C17Ctl
 /-!
 # C17 — pools stay within bounds; a session always closes (property theorems)
 
@@ -704,5 +705,106 @@ theorem C17_pool_close_holding_lock_self_deadlocks :
     ∃ st, PoolLock.run (fun _ => true) (PoolLock.init [1] (fun t => if t = 0 then PoolLock.pCloseHoldingLock else []))
         [0, 0, 0, 0] = some st ∧ PoolLock.selfDeadlocked st 0 = true ∧ PoolLock.step (fun _ => true) st 0 = none := by
   refine ⟨_, rfl, ?_, ?_⟩ <;> decide
+
+/-! ## Session.Close against the control connection's heartbeat and reconnects (`Model/PoolCtl.lean`)
+
+controlConn.close() hands `quit` to the heartbeat goroutine over an UNBUFFERED channel: Session.Close returns only if
+that goroutine comes back to its select — also when it is inside c.reconnect() at that moment (dialling the ring's
+hosts and the contact points, handshake, system.local, REGISTER, refreshRing).
+
+FULL PROPERTY ("… after which the driver's background goroutines exit"): `run init as = some s → s.cl = .done → s.hb = .exited`.
+It does NOT hold for the code that exists: close() only signals a heartbeat goroutine that has already done its
+CAS(Starting → Started); one that is scheduled later finds Starting, starts and is never told to stop
+(`C17_cex_ctl_close_before_heartbeat_runs`, proposed finding KF-C17-4). `C17_ctl_heartbeat_exits_partial` excludes exactly
+that: it requires the closer's CAS to have found Started (`s.state = .closing`). -/
+
+/-- **Session.Close is never stranded on the control connection**: whenever the closer waits in `c.quit <- struct{}{}`,
+    the heartbeat goroutine is alive, on its way back to the select, and can move — for every schedule of heartbeats,
+    failed heartbeats, reconnects by the heartbeat goroutine and by others (any number of round trips), and Close -/
+theorem C17_ctl_closer_never_stranded (as : List Ctl.Act) (s : Ctl.St) (hr : Ctl.run Ctl.init as = some s)
+    (hc : s.cl = .sending) :
+    s.state = .closing ∧ (s.hb = .select ∨ s.hb = .beat ∨ s.hb = .inReconn) ∧
+    ∃ a, Ctl.hbAct s a = true ∧ (Ctl.step s a).isSome = true := by
+  have inv := C17Ctl.inv_run false as _ s (C17Ctl.inv_init false) hr
+  exact ⟨(inv.sending hc).1, (inv.sending hc).2, C17Ctl.hb_enabled s inv hc⟩
+
+/-- **… and waits for a bounded number of the heartbeat goroutine's steps**: from any reachable state in which the closer
+    is blocked, along EVERY continuation in which it is still blocked the heartbeat goroutine has taken at most `mu s`
+    steps (1 in its select, 2 waiting for the OPTIONS answer, k + 3 inside a reconnect with k round trips left); by the
+    previous theorem it can always take the next one, so Close is released after at most `mu s` of them -/
+theorem C17_ctl_close_wait_bounded (as bs : List Ctl.Act) (s s' : Ctl.St) (hr : Ctl.run Ctl.init as = some s)
+    (hc : s.cl = .sending) (hr' : Ctl.run s bs = some s') (hc' : s'.cl = .sending) :
+    C17Ctl.hbSteps s bs + Ctl.mu s' ≤ Ctl.mu s :=
+  C17Ctl.mu_run bs s s' (C17Ctl.inv_run false as _ s (C17Ctl.inv_init false) hr) hc hr' hc'
+
+/-- once close() has switched the state to Closing no reconnect attempt starts any more (reconnect() returns at once) and
+    the state stays Closing -/
+theorem C17_ctl_no_reconnect_after_close (as : List Ctl.Act) (s s' : Ctl.St) (a : Ctl.Act)
+    (_hr : Ctl.run Ctl.init as = some s) (hcl : s.state = .closing) (hs : Ctl.step s a = some s') :
+    s'.state = .closing ∧ (s.rc = .free → s'.rc = .free) := by
+  obtain ⟨st, hb, cl, rc⟩ := s
+  simp only at hcl; subst hcl
+  cases a <;> simp only [Ctl.step, Ctl.stepG] at hs <;> (repeat' split at hs) <;>
+    (first
+      | (simp at hs; done)
+      | (injection hs with hs; subst hs; simp_all))
+
+/-- the heartbeat goroutine is gone when close() returns — PARTIAL: provided close()'s CAS found the heartbeat started
+    (`s.state = .closing`; excluded: Close before the heartbeat goroutine's first instruction, KF-C17-4) -/
+theorem C17_ctl_heartbeat_exits_partial (as : List Ctl.Act) (s : Ctl.St) (hr : Ctl.run Ctl.init as = some s)
+    (hd : s.cl = .done) (hst : s.state = .closing) : s.hb = .exited := by
+  have inv := C17Ctl.inv_run false as _ s (C17Ctl.inv_init false) hr
+  rcases inv.closed hst (Or.inr hd) with h | h
+  · exact h
+  · have := inv.freshCas rfl h; simp [hst] at this
+
+/-- kernel-checked counterexample to the full statement (code that exists): Session.Close runs before the heartbeat
+    goroutine's first instruction; close() returns, the goroutine then starts and along EVERY continuation it never
+    exits (nobody will ever send on quit) -/
+theorem C17_cex_ctl_close_before_heartbeat_runs :
+    ∃ s, Ctl.run Ctl.init [.close, .closeConn, .hbStart] = some s ∧ s.cl = .done ∧ s.hb = .select ∧
+      ∀ (bs : List Ctl.Act) (s' : Ctl.St), Ctl.run s bs = some s' → s'.cl = .done ∧ s'.hb ≠ .exited := by
+  refine ⟨_, rfl, by decide, by decide, ?_⟩
+  intro bs s' hr
+  have h := C17Ctl.late_run bs _ s' ⟨by decide, by decide, by decide⟩ hr
+  refine ⟨h.cl, ?_⟩
+  rcases h.hb with h | h | h <;> simp [h]
+
+/-- the proposed repair (close() SWAPS the state to Closing and signals only if it was Started): the full statement —
+    after close() the heartbeat goroutine has exited or has not run yet, and then its first instruction is its last -/
+theorem C17_ctl_swap_close_heartbeat_exits (as : List Ctl.Act) (s : Ctl.St) (hr : Ctl.runG false true Ctl.init as = some s)
+    (hd : s.cl = .done) :
+    s.hb = .exited ∨ (s.hb = .notStarted ∧ ∀ a s', Ctl.stepG false true s a = some s' → s'.hb = .notStarted ∨ s'.hb = .exited) := by
+  have inv := C17Ctl.inv_run true as _ s (C17Ctl.inv_init true) hr
+  have hst : s.state = .closing := inv.swapClosing rfl (by simp [hd])
+  rcases inv.closed hst (Or.inr hd) with h | h
+  · exact Or.inl h
+  · refine Or.inr ⟨h, ?_⟩
+    intro a s' hs
+    have hown := inv.own
+    obtain ⟨st, hb, cl, rc⟩ := s
+    simp only at h hst; subst h; subst hst
+    cases a <;> simp only [Ctl.stepG] at hs <;> (repeat' split at hs) <;>
+      (first
+        | (simp at hs; done)
+        | (injection hs with hs; subst hs; simp_all))
+
+/-- what the schedules with Close inside a reconnect are there to catch (the heartbeat goroutine returning when it
+    comes out of reconnect() and sees Closing — NOT the code that exists): the closer waits on `quit` for good -/
+theorem C17_ctl_return_after_reconnect_strands_closer :
+    ∃ s, Ctl.runG true false Ctl.init [.hbStart, .hbTimer, .hbBeatFail 0, .close, .rcDone] = some s ∧
+      s.cl = .sending ∧ s.hb = .exited ∧
+      ∀ (bs : List Ctl.Act) (s' : Ctl.St), Ctl.runG true false s bs = some s' → s'.cl = .sending := by
+  refine ⟨_, rfl, by decide, by decide, ?_⟩
+  intro bs s' hr
+  exact (C17Ctl.stranded_run bs _ s' ⟨by decide, by decide, by decide, by decide⟩ hr).cl
+
+/-- non-vacuity: Close while the heartbeat goroutine is inside a reconnect with two round trips left: the closer waits
+    (state sending) until the attempt is over, gets its quit, closes the connection; the heartbeat goroutine has exited -/
+example : ∃ s1 s2, Ctl.run Ctl.init [.hbStart, .hbTimer, .hbBeatFail 2, .rcStep, .close] = some s1 ∧
+    s1.cl = .sending ∧ s1.hb = .inReconn ∧ Ctl.mu s1 = 4 ∧
+    Ctl.run s1 [.rcStep, .otherEnter 5, .rcDone, .hbQuit, .closeConn] = some s2 ∧
+    s2.cl = .done ∧ s2.hb = .exited ∧ s2.rc = .free ∧ s2.state = .closing := by
+  refine ⟨_, _, rfl, by decide, by decide, by decide, rfl, by decide, by decide, by decide, by decide⟩
 
 end C17
